@@ -63,12 +63,12 @@ pub struct SimCase {
     pub swaps: Vec<SimSwap>,
 }
 
-struct Sim {
-    wp: Whirlpool,
-    base: i32,
-    arrays: Vec<RefCell<FixedTickArray>>, // 7 arrays: base-3n .. base+3n
-    oracle: Option<AdaptiveFeeInfo>,
-    ts: u64,
+pub struct Sim {
+    pub wp: Whirlpool,
+    pub base: i32,
+    pub arrays: Vec<RefCell<FixedTickArray>>, // 7 arrays: base-3n .. base+3n
+    pub oracle: Option<AdaptiveFeeInfo>,
+    pub ts: u64,
 }
 
 fn zero_array(start: i32) -> FixedTickArray {
@@ -98,7 +98,8 @@ fn constants_valid(ts: u16, k: &AfConstants) -> bool {
     AdaptiveFeeConstants::validate_constants(ts, k.filter_period, k.decay_period, k.reduction_factor, k.adaptive_fee_control_factor, k.max_volatility_accumulator, k.tick_group_size, k.major_swap_threshold_ticks)
 }
 
-pub fn check_sim(c: &SimCase, l: &mut Local) -> Result<(), String> {
+impl Sim {
+    pub fn build(c: &SimCase) -> Sim {
     let ts = c.tick_spacing;
     let tsi = ts as i32;
     let n = 88 * tsi;
@@ -165,13 +166,13 @@ pub fn check_sim(c: &SimCase, l: &mut Local) -> Result<(), String> {
         },
         variables: AdaptiveFeeVariables::default(),
     });
-    let mut s = Sim { wp, base, arrays, oracle, ts: 1_700_000_000 };
-    let mut crossings_total = 0u32;
-    let mut ok_swaps = 0u32;
-    for (i, sw) in c.swaps.iter().enumerate() {
-        s.ts += sw.dt as u64;
-        let cur = s.wp.tick_current_index;
-        let limit: u128 = match sw.limit_kind % 4 {
+    Sim { wp, base, arrays, oracle, ts: 1_700_000_000 }
+    }
+
+    pub fn resolve_limit(&self, sw: &SimSwap) -> u128 {
+        let tsi = self.wp.tick_spacing as i32;
+        let cur = self.wp.tick_current_index;
+        match sw.limit_kind % 4 {
             0 => 0,
             1 => {
                 let t = if sw.a_to_b { cur.div_euclid(tsi) * tsi - (sw.limit_arg % 40) as i32 * tsi } else { cur.div_euclid(tsi) * tsi + (1 + (sw.limit_arg % 40) as i32) * tsi };
@@ -179,9 +180,9 @@ pub fn check_sim(c: &SimCase, l: &mut Local) -> Result<(), String> {
             }
             2 => {
                 if sw.a_to_b {
-                    s.wp.sqrt_price.saturating_sub((sw.limit_arg as u128) << 20).max(MIN_SQRT_PRICE)
+                    self.wp.sqrt_price.saturating_sub((sw.limit_arg as u128) << 20).max(MIN_SQRT_PRICE)
                 } else {
-                    s.wp.sqrt_price.saturating_add((sw.limit_arg as u128) << 20).min(MAX_SQRT_PRICE)
+                    self.wp.sqrt_price.saturating_add((sw.limit_arg as u128) << 20).min(MAX_SQRT_PRICE)
                 }
             }
             _ => {
@@ -191,18 +192,64 @@ pub fn check_sim(c: &SimCase, l: &mut Local) -> Result<(), String> {
                     MAX_SQRT_PRICE
                 }
             }
-        };
-        // arrays the swap may use (same rule as the program's sparse-swap builder)
-        let starts = crate::world::swap_array_starts(cur, ts, sw.a_to_b);
-        let idxs: Vec<usize> = starts.iter().filter_map(|st| s.arrays.iter().position(|a| a.borrow().start_tick_index == *st)).collect();
-        // contiguity: stop at the first missing array
+        }
+    }
+
+    /// indexes of the (up to three) arrays a swap from the current tick uses, in traversal order
+    pub fn arrays_for(&self, a_to_b: bool) -> Vec<usize> {
+        let starts = crate::world::swap_array_starts(self.wp.tick_current_index, self.wp.tick_spacing, a_to_b);
         let mut use_idx = vec![];
-        for (k, st) in starts.iter().enumerate() {
-            match idxs.get(k) {
-                Some(ix) if s.arrays[*ix].borrow().start_tick_index == *st => use_idx.push(*ix),
-                _ => break,
+        for st in starts.iter() {
+            match self.arrays.iter().position(|a| a.borrow().start_tick_index == *st) {
+                Some(ix) => use_idx.push(ix),
+                None => break,
             }
         }
+        use_idx
+    }
+
+    /// the program's swap on this state (tick arrays are updated in place); returns the H2 step trace as well
+    pub fn program_swap(&self, use_idx: &[usize], sw: &SimSwap, limit: u128) -> (Result<Box<whirlpool::manager::swap_manager::PostSwapUpdate>, u64>, Vec<whirlpool::verif_trace::StepTrace>) {
+        let _ = whirlpool::verif_trace::take();
+        let prog = {
+            let mut refs: Vec<RefMut<dyn TickArrayType>> = use_idx.iter().map(|ix| RefMut::map(self.arrays[*ix].borrow_mut(), |t| t as &mut dyn TickArrayType)).collect();
+            let ta2 = if refs.len() > 2 { Some(refs.remove(2)) } else { None };
+            let ta1 = if refs.len() > 1 { Some(refs.remove(1)) } else { None };
+            let ta0 = refs.remove(0);
+            let mut seq = SwapTickSequence::new(ta0, ta1, ta2);
+            swap(&self.wp, &mut seq, sw.amount, limit, sw.exact_in, sw.a_to_b, self.ts, &self.oracle).map_err(anchor_code)
+        };
+        (prog, whirlpool::verif_trace::take())
+    }
+
+    pub fn apply(&mut self, p: &whirlpool::manager::swap_manager::PostSwapUpdate, a_to_b: bool) {
+        self.wp.liquidity = p.next_liquidity;
+        self.wp.tick_current_index = p.next_tick_index;
+        self.wp.sqrt_price = p.next_sqrt_price;
+        if a_to_b {
+            self.wp.fee_growth_global_a = p.next_fee_growth_global;
+            self.wp.protocol_fee_owed_a = self.wp.protocol_fee_owed_a.wrapping_add(p.next_protocol_fee);
+        } else {
+            self.wp.fee_growth_global_b = p.next_fee_growth_global;
+            self.wp.protocol_fee_owed_b = self.wp.protocol_fee_owed_b.wrapping_add(p.next_protocol_fee);
+        }
+        self.wp.reward_infos = p.next_reward_infos;
+        self.wp.reward_last_updated_timestamp = self.ts;
+        if let Some(n) = p.next_adaptive_fee_info.clone() {
+            self.oracle = Some(n);
+        }
+    }
+}
+
+pub fn check_sim(c: &SimCase, l: &mut Local) -> Result<(), String> {
+    let ts = c.tick_spacing;
+    let mut s = Sim::build(c);
+    let mut crossings_total = 0u32;
+    let mut ok_swaps = 0u32;
+    for (i, sw) in c.swaps.iter().enumerate() {
+        s.ts += sw.dt as u64;
+        let limit = s.resolve_limit(sw);
+        let use_idx = s.arrays_for(sw.a_to_b);
         if use_idx.is_empty() {
             l.count("no_array_for_current_tick");
             break;
@@ -251,16 +298,7 @@ pub fn check_sim(c: &SimCase, l: &mut Local) -> Result<(), String> {
             sdk::compute_swap(amount, limit, wpf, seq, a_to_b, exact_in, now, of.map(|o| o.into()))
         });
         // program
-        let _ = whirlpool::verif_trace::take();
-        let prog = {
-            let mut refs: Vec<RefMut<dyn TickArrayType>> = use_idx.iter().map(|ix| RefMut::map(s.arrays[*ix].borrow_mut(), |t| t as &mut dyn TickArrayType)).collect();
-            let ta2 = if refs.len() > 2 { Some(refs.remove(2)) } else { None };
-            let ta1 = if refs.len() > 1 { Some(refs.remove(1)) } else { None };
-            let ta0 = refs.remove(0);
-            let mut seq = SwapTickSequence::new(ta0, ta1, ta2);
-            swap(&s.wp, &mut seq, sw.amount, limit, sw.exact_in, sw.a_to_b, s.ts, &s.oracle).map_err(anchor_code)
-        };
-        let steps = whirlpool::verif_trace::take();
+        let (prog, steps) = s.program_swap(&use_idx, sw, limit);
         let what = format!("swap #{i} {sw:?} (limit {limit})");
         match (&prog, &sdk_res) {
             (Ok(p), Ok(Ok(q))) => {
@@ -308,23 +346,7 @@ pub fn check_sim(c: &SimCase, l: &mut Local) -> Result<(), String> {
         }
         // advance the shared state with the program's result
         match prog {
-            Ok(p) => {
-                s.wp.liquidity = p.next_liquidity;
-                s.wp.tick_current_index = p.next_tick_index;
-                s.wp.sqrt_price = p.next_sqrt_price;
-                if sw.a_to_b {
-                    s.wp.fee_growth_global_a = p.next_fee_growth_global;
-                    s.wp.protocol_fee_owed_a = s.wp.protocol_fee_owed_a.wrapping_add(p.next_protocol_fee);
-                } else {
-                    s.wp.fee_growth_global_b = p.next_fee_growth_global;
-                    s.wp.protocol_fee_owed_b = s.wp.protocol_fee_owed_b.wrapping_add(p.next_protocol_fee);
-                }
-                s.wp.reward_infos = p.next_reward_infos;
-                s.wp.reward_last_updated_timestamp = s.ts;
-                if let Some(n) = p.next_adaptive_fee_info {
-                    s.oracle = Some(n);
-                }
-            }
+            Ok(p) => s.apply(&p, sw.a_to_b),
             Err(_) => {
                 // a failed swap may have touched tick arrays in place; rebuild is not needed because the program's
                 // tick updates happen only on crossings that precede the failure; to stay exact we stop the sequence here
